@@ -531,3 +531,12 @@ pub mod verif_hooks {
         (MARK_BIT, NURSERY_BIT, LOS_BIT_MASK, ms)
     }
 }
+
+#[cfg(mmtk_verif)]
+impl<VM: VMBinding> LargeObjectSpace<VM> {
+    /// Verification hook: the treadmill's four sets `[from_space, to_space, collect_nursery,
+    /// alloc_nursery]` as raw object addresses.
+    pub fn verif_treadmill_sets(&self) -> [Vec<usize>; 4] {
+        self.treadmill.verif_sets()
+    }
+}
